@@ -159,3 +159,103 @@ func VerifC11_SyncTail() {
 		rt.Cover("tail/plain-status-stored")
 	}
 }
+
+// VerifC11_ConflictSequence: the status write meets k conflicts in a row, and at
+// every conflict ANOTHER WRITER really changes the parent (spec edit, generation
+// bump). Every attempt must be preceded by its own fresh read and carry the
+// object just read with only the status replaced; when the call succeeds the
+// stored status is the hook's; when it gives up it was retried at least once and
+// reports the conflict; an error other than a conflict is not retried.
+func VerifC11_ConflictSequence() {
+	w := env.NewWorld()
+	gen0 := rt.Int64("generation")
+	rt.Assume(gen0 >= 1 && gen0 < 1000000)
+	cached := env.Thing("ns", "p", "puid")
+	cached.Object["metadata"].(map[string]interface{})["generation"] = gen0
+	cached.Object["spec"].(map[string]interface{})["x"] = "x0"
+	w.Srv.Put("things", cached)
+	maxK := 3
+	if rt.Tier() == 1 {
+		maxK = 6
+	}
+	k := rt.Choice("conflicts-in-a-row", maxK+1)
+	other := rt.Bool("then-a-non-conflict-error")
+	plan := make([]int, 0, k+1)
+	for i := 0; i < k; i++ {
+		plan = append(plan, env.FaultConflict)
+	}
+	if other {
+		plan = append(plan, env.FaultInternal)
+	}
+	w.Srv.FaultPlan = plan
+	w.Srv.FaultOnlyResource = "things"
+	edits := 0
+	w.Srv.OnFault = func(n int) {
+		if n >= k {
+			return
+		}
+		// the writer that won the race: spec edit, new resourceVersion and generation
+		edits++
+		cur := w.Srv.Peek("things", "ns", "p").DeepCopy()
+		cur.Object["spec"].(map[string]interface{})["x"] = "x" + string(rune('0'+edits))
+		cur.SetGeneration(cur.GetGeneration() + 1)
+		cur.SetResourceVersion(cur.GetResourceVersion() + "+")
+		w.Srv.Put("things", cur)
+	}
+	phase := rt.String("phase")
+	pc := verifNewPC(w, verifPCConfig{ParentRes: env.ThingRes})
+	_, err := pc.updateParentStatus(cached, map[string]interface{}{"phase": phase})
+	rt.Observe("err", err != nil)
+
+	// every write attempt is preceded by its own read and carries what was read
+	var lastGet *env.Req
+	attempts, gets := 0, 0
+	for i := range w.Srv.Log {
+		r := &w.Srv.Log[i]
+		if r.Resource != "things" {
+			continue
+		}
+		if r.Verb == "get" {
+			gets++
+			lastGet = r
+			continue
+		}
+		attempts++
+		rt.Assert(r.Verb == "update" && r.Sub == "status", "conflicts/unexpected-write")
+		rt.Assert(lastGet != nil, "conflicts/write-without-a-read")
+		if lastGet == nil || lastGet.Pre == nil || r.Body == nil {
+			continue
+		}
+		gen.Equal(r.Body.Object["spec"], lastGet.Pre.Object["spec"], "conflicts/retry-does-not-carry-the-freshly-read-spec")
+		gen.Equal(r.Body.Object["metadata"], lastGet.Pre.Object["metadata"], "conflicts/retry-does-not-carry-the-freshly-read-metadata")
+		st, _ := r.Body.Object["status"].(map[string]interface{})
+		rt.Assert(st != nil && st["phase"] == phase, "conflicts/status-differs-from-hook-status")
+		if st != nil {
+			og, _ := st["observedGeneration"].(int64)
+			rt.Assert(og == gen0, "conflicts/observedGeneration-is-not-the-generation-sent-to-the-hook")
+		}
+		lastGet = nil // the next attempt needs its own read
+	}
+	rt.Assert(gets >= attempts, "conflicts/fewer-reads-than-write-attempts")
+	cur := w.Srv.Peek("things", "ns", "p")
+	cst, _ := cur.Object["status"].(map[string]interface{})
+	if err == nil {
+		rt.Cover("conflicts/succeeded")
+		rt.Assert(attempts == k+1, "conflicts/success-without-passing-all-conflicts")
+		rt.Assert(!other, "conflicts/non-conflict-error-swallowed")
+		rt.Assert(cst != nil && cst["phase"] == phase, "conflicts/status-not-stored-although-no-error")
+		// the winner's spec edits survive
+		sp, _ := cur.Object["spec"].(map[string]interface{})
+		rt.Assert(sp["x"] == "x"+string(rune('0'+edits)), "conflicts/concurrent-spec-edit-lost")
+	} else {
+		rt.Cover("conflicts/gave-up")
+		if k >= 1 {
+			rt.Assert(attempts >= 2, "conflicts/not-retried-after-a-conflict")
+		}
+		if other && attempts == k+1 {
+			rt.Cover("conflicts/non-conflict-error-ends-the-retries")
+		}
+		rt.Assert(attempts <= k+1, "conflicts/retried-after-a-non-conflict-error-or-beyond-the-plan")
+		rt.Assert(cst == nil || cst["phase"] != phase || phase == "", "conflicts/status-stored-although-error-reported")
+	}
+}
